@@ -161,6 +161,15 @@ static void vf_wd_handler(int signo)
         vf_wd_last = vf_progress;
     }
 }
+/* Sanitizer options compiled into every checker (the environment may still override them): a report aborts,
+ * so that it reaches vf_sig_handler; the runtimes do not install their own handlers for the signals we take. */
+const char *__asan_default_options(void);
+const char *__asan_default_options(void)
+{
+    return "abort_on_error=1:detect_leaks=0:handle_segv=0:handle_abort=0:handle_sigbus=0:handle_sigfpe=0:handle_sigill=0:allocator_may_return_null=1";
+}
+const char *__ubsan_default_options(void);
+const char *__ubsan_default_options(void) { return "abort_on_error=1:print_stacktrace=0"; }
 /* sanitizer runtimes call this just before dying (both ASan and UBSan) */
 void __sanitizer_set_death_callback(void (*cb)(void)) __attribute__((weak));
 static void vf_san_death(void) { vf_fatal_report("sanitizer", 0); }
@@ -234,6 +243,12 @@ static pid_t vf_spawn(void (*worker)(int w, int W, uint64_t start), int w, uint6
     if (p == 0) {
         vf_g.wid = w;
         vf_fatal_entered = 0;
+        /* sanitizer reports and other stderr noise of the workers go to a log, not to the verdict stream */
+        char lp[256];
+        snprintf(lp, sizeof lp, "%s/build/logs", VF_ROOT); mkdir(lp, 0777);
+        snprintf(lp, sizeof lp, "%s/build/logs/%s-%s.worker%d.stderr", VF_ROOT, vf_g.check, vf_g.prop, w);
+        int lfd = open(lp, O_WRONLY | O_CREAT | (start ? O_APPEND : O_TRUNC), 0666);
+        if (lfd >= 0) { dup2(lfd, 2); close(lfd); }
         vf_install_fatal();
         worker(w, vf_g.W, start);
         vf_g.sh[w].finished = 1;
@@ -260,7 +275,7 @@ static int vf_run_workers(void (*worker)(int w, int W, uint64_t start))
         live--;
         int code = WIFEXITED(st) ? WEXITSTATUS(st) : 128 + WTERMSIG(st);
         if (code == 0) continue;
-        if (code == VF_EXIT_HARNESS) vf_die("worker %d reported a harness error", w);
+        if (code == VF_EXIT_HARNESS) vf_die("worker %d reported a harness error, see %s/build/logs/%s-%s.worker%d.stderr", w, VF_ROOT, vf_g.check, vf_g.prop, w);
         /* fatal outcome inside the code under test */
         deaths++;
         if (code != 3) {
